@@ -74,7 +74,7 @@ func (m *MLDv2MulticastListenerQueryMessage) DecodeFromBytes(data []byte, df gop
 	m.NumberOfSources = binary.BigEndian.Uint16(data[22:24])
 	m.SourceAddresses = m.SourceAddresses[:0]
 
-	var end int
+	end := 24
 	for i := uint16(0); i < m.NumberOfSources; i++ {
 		begin := 24 + (int(i) * 16)
 		end = begin + 16
@@ -87,6 +87,7 @@ func (m *MLDv2MulticastListenerQueryMessage) DecodeFromBytes(data []byte, df gop
 		m.SourceAddresses = append(m.SourceAddresses, data[begin:end])
 	}
 
+	m.BaseLayer = BaseLayer{Contents: data[:end], Payload: data[end:]}
 	return nil
 }
 
@@ -331,6 +332,7 @@ func (m *MLDv2MulticastListenerReportMessage) DecodeFromBytes(data []byte, df go
 		begin += read
 	}
 
+	m.BaseLayer = BaseLayer{Contents: data[:begin], Payload: data[begin:]}
 	return nil
 }
 
